@@ -33,6 +33,11 @@ pub(crate) struct Rig {
 /// Pool of POOL buffers of CAP bytes; ring tail = `tail`; every byte of the
 /// buffer area is a canary.
 pub(crate) fn rig_with(pool_size: u16, tail: u16) -> Rig {
+    rig_sized(pool_size, tail, CAP as u32)
+}
+
+/// Same, with buffers of `buf_size` <= CAP bytes (slot i at base + i*buf_size).
+pub(crate) fn rig_sized(pool_size: u16, tail: u16, buf_size: u32) -> Rig {
     k::install(k::base_table());
     k::sq_set(0, 0);
     let sq = SubmissionQueue(Submissions::new(k::build_shared(2, false, false)));
@@ -47,7 +52,7 @@ pub(crate) fn rig_with(pool_size: u16, tail: u16) -> Rig {
         id: 7,
         sq,
         pool_size,
-        buf_size: CAP as u32,
+        buf_size,
         bufs_addr: bufs,
         ring_addr: ring.cast(),
         tail_mask: pool_size - 1,
@@ -427,6 +432,34 @@ fn c08_release_step() {
     assert!(other.0 == if idx == 0 { 0x2222 } else { 0x1111 }, "other ring entry untouched");
     kani::cover!(tail0 == u16::MAX, "16-bit tail wraps");
     kani::cover!(idx == 0 && id == 1);
+    std::mem::forget(rig.pool);
+}
+//@ prop: C08
+//@ tier: quick
+//@ what: the same conservation step for buffer sizes that are NOT a power of two (and 1, 2, 4): init_buffer(id) is [base + id*buf_size, +n) and releasing it publishes (that address, buf_size, bid == id) -- the buffer id computed from the address is the id the kernel was given at registration, so the kernel's next choice of `bid` maps back to the slot it wrote into
+//@ bound: pool size 2; buf_size symbolic in 1..=4 (3 included); tail any u16; id, n symbolic
+//@ encodes: io_uring::io::ReadBufPool::{init_buffer,release,ring_tail}; <io::ReadBuf as Drop>::drop
+#[kani::proof]
+#[kani::unwind(10)]
+fn c08_release_step_any_size() {
+    let size: u32 = kani::any();
+    kani::assume(size >= 1 && size as usize <= CAP);
+    let rig = rig_sized(POOL as u16, kani::any(), size);
+    let tail0 = rig.tail();
+    let id: u16 = kani::any();
+    kani::assume((id as usize) < POOL);
+    let n: u32 = kani::any();
+    kani::assume(n <= size);
+    let slice = unsafe { rig.pool.init_buffer(BufId(id), n) };
+    let base = unsafe { rig.bufs.add(id as usize * size as usize) };
+    assert!(slice.cast::<u8>().as_ptr() == base && slice.len() == n as usize);
+    let rb = ReadBuf { shared: rig.pool.clone(), owned: Some(slice) };
+    drop(rb);
+    let (addr, len, bid) = rig.entry((tail0 & 1) as usize);
+    assert!(addr == base.addr() as u64 && len == size && bid == id, "exactly its own buffer is given back under its own id");
+    assert!(rig.tail() == tail0.wrapping_add(1), "tail advanced by one");
+    kani::cover!(size == 3 && id == 1, "non power of two size");
+    kani::cover!(size == 1 && id == 1);
     std::mem::forget(rig.pool);
 }
 
